@@ -85,8 +85,42 @@ pub fn build_via_set_activation(spec: &Net) -> Network {
     net
 }
 
+thread_local! {
+    /// build order: false = all layers, then the accumulations, then the connections; true = the accumulations first and
+    /// every connect / loopback call issued as soon as the layers it names exist, BEFORE the remaining layers are added
+    /// (the calls keep their relative order). Both orders describe the same network.
+    static EAGER: std::cell::Cell<bool> = const { std::cell::Cell::new(false) };
+}
+pub fn set_eager(on: bool) {
+    EAGER.with(|e| e.set(on));
+}
+
 /// Build the whole network (panics propagate: wrap in util::guard).
 pub fn build(spec: &Net) -> Network {
+    if EAGER.with(|e| e.get()) {
+        let mut net = Network::new(lib_shape(spec.input));
+        net.set_accumulation(lib_acc(spec.skipacc), lib_acc(spec.loopacc));
+        let (mut ci, mut li) = (0usize, 0usize);
+        for (n, l) in spec.layers.iter().enumerate() {
+            add_layer(&mut net, l);
+            while ci < spec.connects.len() && spec.connects[ci].0.max(spec.connects[ci].1) <= n {
+                net.connect(spec.connects[ci].0, spec.connects[ci].1);
+                ci += 1;
+            }
+            while li < spec.loopbacks.len() && spec.loopbacks[li].0.max(spec.loopbacks[li].1) <= n {
+                let (o, i, k, sk) = spec.loopbacks[li];
+                net.loopback(o, i, k, Arc::new(|_x| 1.0), sk);
+                li += 1;
+            }
+        }
+        for (a, b) in &spec.connects[ci..] {
+            net.connect(*a, *b);
+        }
+        for (o, i, k, sk) in &spec.loopbacks[li..] {
+            net.loopback(*o, *i, *k, Arc::new(|_x| 1.0), *sk);
+        }
+        return net;
+    }
     let mut net = Network::new(lib_shape(spec.input));
     for l in &spec.layers {
         add_layer(&mut net, l);
